@@ -1,7 +1,7 @@
 import functools
 
 from dask.dataframe import methods
-from dask.utils import M
+from dask.utils import M, is_dataframe_like, is_series_like
 
 from dask_expr._expr import Blockwise, Expr, Projection, plain_column_projection
 
@@ -56,8 +56,11 @@ class TakeLast(Blockwise):
 
     @staticmethod
     def operation(a, skipna=True):
+        if a.empty:
+            # an empty partition contributes nothing to the following ones
+            return None
         if skipna:
-            if a.ndim == 1 and (a.empty or a.isna().all()):
+            if a.ndim == 1 and a.isna().all():
                 return None
             a = a.ffill()
         return a.tail(n=1).squeeze()
@@ -79,23 +82,50 @@ class CumulativeFinalize(Expr):
         dsk[(self._name, 0)] = (frame._name, 0)
 
         intermediate_name = self._name + "-intermediate"
+        skipna = getattr(previous_partitions, "skipna", True)
         for i in range(1, self.frame.npartitions):
             if i == 1:
                 dsk[(intermediate_name, i)] = (previous_partitions._name, i - 1)
             else:
                 # aggregate with previous cumulation results
                 dsk[(intermediate_name, i)] = (
-                    methods._cum_aggregate_apply,
+                    _aggregate_skip_none,
                     self.aggregator,
                     (intermediate_name, i - 1),
                     (previous_partitions._name, i - 1),
+                    skipna,
                 )
             dsk[(self._name, i)] = (
+                _aggregate_skip_none,
                 self.aggregator,
                 (self.frame._name, i),
                 (intermediate_name, i),
+                skipna,
             )
         return dsk
+
+
+def _aggregate_skip_none(aggregate, x, y, skipna=True):
+    # ``None`` stands for "no value yet" (empty or all-missing previous partitions)
+    if y is None:
+        return x
+    if x is None:
+        return y
+    out = aggregate(x, y)
+    if skipna and is_series_like(y) and getattr(x, "ndim", 0) >= 1:
+        # ``y`` holds the last valid value per column; a column without any valid
+        # value so far must not turn the following partitions into missing values
+        y_missing = y.isna()
+        if y_missing.any():
+            cols = y.index[y_missing]
+            out = out.copy()
+            out[cols] = x[cols]
+        if x.ndim == 1:
+            x_missing = x.isna() & ~y_missing
+            if x_missing.any():
+                out = out.copy()
+                out[x_missing] = y[x_missing]
+    return out
 
 
 class CumSum(CumulativeAggregations):
